@@ -22,18 +22,18 @@ RULE = (
     "Generated: C01-style races (1-4 elements, parallel elements, completed-by, 1-3 hosts x 1-4 cores, message delays up to 7 s, "
     "wake-up lateness) with some steps longer than the 30 s post-processing interval, requests with 1-2 dependent sub-requests, "
     "error outcomes under on-error=continue, pre-emption windows {0, 1/1024, 1/64, 1/8} s at Future.done() inside actor handlers (executor "
-    "thread work happening while a handler runs); settings class: default | down-sample factor 2 or 7 | sample queue size 1-3; 1 in 40: a burst task of 1 500-20 000 requests "
+    "thread work happening while a handler runs) and, in a quarter of the cases, inside Sampler.add() (the actor thread ships samples while the executor thread is about to enqueue every k-th sample); settings class: default | down-sample factor 2 or 7 | sample queue size 1-3; 1 in 40: a burst task of 1 500-20 000 requests "
     "within one wake-up interval (plus a fixed replay case with 72 000). "
     "Non-trivial = >= 2 workers and >= 2 steps and at least one periodic post-processing tick stored records inside a step. "
     "Distinct = distinct canonical JSON."
 )
 ASSUMPTIONS = [
-    "Thespian semantics as rendered in sim/actors.py; executor thread modelled as asyncio tasks on the shared virtual loop; thread pre-emption is explored only at Future.done() calls made from actor handlers",
+    "Thespian semantics as rendered in sim/actors.py; executor thread modelled as asyncio tasks on the shared virtual loop; thread pre-emption is explored at two points only: Future.done() calls made from actor handlers, and the construction of a Sample inside Sampler.add()",
     "race control's part (bulk_add of every TaskFinished/BenchmarkComplete payload into its own InMemoryMetricsStore) is played by the harness with the real store class",
     "records are matched to requests by (name, task, operation, client id, timestamp within 1 ms); consecutive requests of one client are >= 3.9 ms apart by construction",
 ]
 BUDGET = {"quick": 450, "thorough": 4000}
-REQUIRED_CLASSES = {"preempted-handler": 40, "multi-worker": 100, "periodic-tick-inside-step": 40, "downsample": 40, "tiny-queue": 40, "sub-requests": 100}
+REQUIRED_CLASSES = {"preempted-handler": 40, "multi-worker": 100, "periodic-tick-inside-step": 40, "downsample": 40, "tiny-queue": 40, "sub-requests": 100, "shipment-inside-sampler-add": 40}
 
 
 @st.composite
@@ -70,6 +70,9 @@ def _case(draw, known):
             leaf.pop("throughput", None)
             leaf["requests"] = [{"pre": 0, "wire": [[0, 1 / 8192]], "post": 0, "outcome": "ok", "shape": "dict", "weight": 1, "unit": "ops"}]
             case["volume"] = True
+    if draw(st.integers(0, 3)) == 0:
+        # thread pre-emption inside Sampler.add(): the actor thread ships samples while the executor thread is about to enqueue one
+        case["preempt_add"] = draw(st.lists(st.sampled_from([1, 2, 3, 5, 7]), min_size=1, max_size=2))
     setting = draw(st.sampled_from(["default", "default", "default", "downsample", "tiny-queue"]))
     if setting == "downsample":
         case["downsample"] = draw(st.sampled_from([2, 7]))
@@ -241,6 +244,8 @@ def run_case(case, obs):
         obs.cls("volume")
     if r.rt.stats.get("preemptions_with_work"):
         obs.cls("preempted-handler")
+    if r.rt.stats.get("preemptions_in_sampler_add"):
+        obs.cls("shipment-inside-sampler-add")
     obs.mark_nontrivial(n_workers >= 2 and steps >= 2 and tick_inside)
 
 
